@@ -22,7 +22,8 @@ ASSUMPTIONS = ["CPython zoneinfo + installed tz data define which wall times exi
 
 ENTRIES = ["datetime(name)", "datetime(Timezone)", "datetime(ZoneInfo)", "create", "local", "set", "at", "on", "replace",
            "replace(fold)", "parse", "convert", "Timezone.datetime", "naive.in_timezone", "convert(pendulum naive)", "naive.replace(tzinfo)",
-           "naive.replace(tzinfo, fold)", "local(name)", "local(TZ env)", "parse(date only)", "parse(to minutes)", "parse(to seconds)"]
+           "naive.replace(tzinfo, fold)", "local(name)", "local(TZ env)", "parse(date only)", "parse(to minutes)", "parse(to seconds)",
+           "replace(changed fields only)", "set(changed fields only)"]
 
 # a text without a time of day / seconds / fraction denotes the wall time with those fields zero: the wall time is truncated first, then spelled the short way
 PARSE_TRUNC = {"parse(date only)": 86400 * US, "parse(to minutes)": 60 * US, "parse(to seconds)": US}
@@ -126,6 +127,28 @@ def build(entry, zone, w, fold, roe):
         return pendulum.parse(short_text(entry, f, w), tz=zone), 1
     if entry == "naive.in_timezone":
         return pendulum.naive(*f).in_timezone(zone), 1
+    if entry in ("replace(changed fields only)", "set(changed fields only)"):
+        # an existing value that shares as many leading fields with the target as possible (same minute, else same hour, same day, ...): only the
+        # fields that differ are passed - the result is still the construction of the complete new wall time
+        first = (w // 7) % 4
+        bw = None
+        for unit in ([US, 60 * US, 3600 * US, 86400 * US][first:] + [86400 * US]):
+            span = unit * {US: 60, 60 * US: 60, 3600 * US: 24, 86400 * US: 28}[unit]
+            lo = w - w % span
+            for k in range(1, 60):
+                cand = lo + (w % span + k * unit * (1 if k % 2 else -1) * ((k + 1) // 2)) % span if unit != 86400 * US else w + k * unit * (1 if k % 2 else -1)
+                if S.LO_U <= cand <= S.HI_U and cand != w and T.classify_wall(cand, zone)[0] == "unique":
+                    bw = cand
+                    break
+            if bw is not None:
+                break
+        if bw is None:
+            raise Skip("no unique base wall time nearby")
+        base = pendulum.datetime(*wt(bw), tz=zone, fold=fold)
+        req(T.fields(base) == tuple(wt(bw)), "base instance was not built with the given unique wall fields", got=base.isoformat())
+        names = ("year", "month", "day", "hour", "minute", "second", "microsecond")
+        kw = {n: v for n, v, b in zip(names, f, wt(bw)) if v != b}
+        return (base.replace(**kw) if entry.startswith("replace") else base.set(**kw)), base.fold
     # entries that start from an existing instance: its fold is the effective fold
     if entry in ("set", "replace", "replace(fold)"):
         bw = find_unique(zone, w, 37 * 3600 * US + 17 * US)
